@@ -404,6 +404,11 @@ def _check_kl(ck, inst, f, p, t, mname, cls):
         tp, mp = argp(a, 0), argp(a, 1)  # _single_basis_KL(target, model) by position
         if tp is None or mp is None:
             continue
+        if model_dep(tp) and not model_dep(mp):
+            tp, mp = mp, tp  # roles by value (the target is the distribution that does not depend on the model), not by position
+            pos_swapped = True
+        else:
+            pos_swapped = False
         # both arguments are distributions over the same N basis states
         e_ = c[5]
         sh_t, sh_m = getattr(argp(e_, 0), "shape", None), getattr(argp(e_, 1), "shape", None)
@@ -421,10 +426,27 @@ def _check_kl(ck, inst, f, p, t, mname, cls):
                              "for a density-matrix target the reference-basis distribution is taken as |rho_ij|^2 (all N x N entries) instead of the diagonal of rho")
             else:
                 ck.undecided("C10.R3", inst + ":target Born distribution [%s]" % _c(p), f.site(), "target probabilities %r not recognised" % (tp,))
-        ok = (not model_dep(tp)) and model_dep(mp)
-        swapped = model_dep(tp) and not model_dep(mp)
-        ck.check(True if ok else (False if swapped else None), "C10.R3", inst + ":KL(target || model) argument order [%s]" % _c(p), f.site(),
-                 "the single-basis KL receives (model, target): the divergence is taken in the wrong direction")
+        ok = (not model_dep(tp)) and model_dep(mp) and not pos_swapped
+        swapped = pos_swapped
+        if swapped:
+            tp, mp = mp, tp  # back to positions for the verdict below
+        # which argument plays which role is the helper's own matter: decided by what the call returned - the divergence of the
+        # model from the target, sum t (log t - log m) with t the distribution that does not depend on the model
+        rt_ = c[6] if len(c) > 6 else None
+        if rt_ is not None and (ok or swapped):
+            t_, m_ = (tp, mp) if ok else (mp, tp)
+            fwd = T.app("sum", t_ * T.app("plog", t_), "all") - T.app("sum", t_ * T.app("plog", m_), "all")
+            rev = T.app("sum", m_ * T.app("plog", m_), "all") - T.app("sum", m_ * T.app("plog", t_), "all")
+            if rt_ == fwd:
+                ck.ok("C10.R3", inst + ":KL(target || model) argument order [%s]" % _c(p), f.site())
+                continue
+            if rt_ == rev:
+                ck.violation("C10.R3", inst + ":KL(target || model) argument order [%s]" % _c(p), f.site(),
+                             "this call of the single-basis KL returns sum m (log m - log t), the divergence of the target from the model: the divergence is taken in the wrong direction",
+                             key="C10.R3|KL|reverse divergence")
+                continue
+        ck.check(True if ok else (None if swapped else None), "C10.R3", inst + ":KL(target || model) argument order [%s]" % _c(p), f.site(),
+                 "the single-basis KL receives (model, target) by position and what it returns is not followed")
     if mname.endswith("/bases"):
         # same rotation of target and model in each basis
         rots = [c for c in p.calls if c[0].endswith("unitaries.rotate_psi") or c[0].endswith("unitaries.rotate_rho_probs")]
